@@ -5,6 +5,7 @@ package interp
 // symbolic index) and symbolic-content strings.
 
 import (
+	"os"
 	"fmt"
 	"go/token"
 	"go/types"
@@ -239,8 +240,26 @@ func curSite() uint32 {
 		}
 	}
 	siteIDs[curInstr] = h
+	if SiteDebug {
+		name := ""
+		if b := curInstr.Block(); b != nil {
+			name = fmt.Sprintf("%s#%d", curInstr.Parent().String(), b.Index)
+			for _, in := range b.Instrs {
+				if in.Pos().IsValid() {
+					pos := curInstr.Parent().Prog.Fset.Position(in.Pos())
+					name += fmt.Sprintf(" @%s:%d", pos.Filename, pos.Line)
+					break
+				}
+			}
+		}
+		SiteNames[h] = name
+	}
 	return h
 }
+
+// SiteDebug makes curSite record a readable name per decision site (development aid).
+var SiteDebug = os.Getenv("VERIF_SITES") != ""
+var SiteNames = map[uint32]string{}
 
 func siteSalt(n uint32) uint32 { return curSite()*31 + n }
 
